@@ -98,10 +98,24 @@ def c18(res):
 CHECKS = {"C17": c17, "C10": codec, "C11": codec, "C18": c18, "C01": c01, "C02": c02, "C04": c04, "C07": c07, "C08": c08, "C13": c13, "C15": c15, "C16": c16}
 
 
+QUICK_FAMILIES = [
+    ("MC_TransferOpen", ["MC_SendCoreQuick", "MC_RecvCoreQuick", "MC_SendBigWShort", "MC_RecvBigW", "MC_RecvDevfull",
+                         "MC_SendWrapSmall", "MC_RecvWrapSmall", "MC_SendWrapReal", "MC_RecvWrapReal",
+                         "MC_SendDup", "MC_RecvDup"]),
+    ("MC_Window", ["MC_Window_ReadersQuick", "MC_Window_MixedQuick"]),
+    ("MC_Codec", ["MC_Codec_BytesQuick", "MC_Codec_DeepQuick", "MC_Codec_Prefix", "MC_Codec_PacketsQuick"]),
+    ("MC_Cli", ["MC_Cli_STokQuick", "MC_Cli_SItemQuick", "MC_Cli_CTokQuick", "MC_Cli_CItemQuick"]),
+]
+
+
 def setup():
+    """Builds the harness and pre-generates (model-checks) every configuration the quick tier
+    uses; generation is cached by the hash of spec/, which does not change when /repo does."""
     C.build_harness(("wsim", "pure"))
-    for f in ["MC_SendCoreQuick", "MC_RecvCoreQuick"]:
-        W.generate(f)
+    for module, fams in QUICK_FAMILIES:
+        for f in fams:
+            meta, _ = W.generate(f, module=module)
+            C.log("generated", f, meta)
     return 0
 
 
